@@ -18,3 +18,20 @@ NOT_APPLICABLE = {
     "C01": "refinement over histories of path-taking public calls is a whole-program run; a single create_file exceeds "
            "25 min in CBMC (measured, DESIGN.md §0/§3 C01), so no bound worth stating is reachable with this technique",
 }
+
+CLAIMS["C07"] = {
+    "text": "Bounded model checking over ALL BPB field values: validation is total (no panic/overflow), accepts only "
+            "coherent geometry per an independent u64 predicate, and the accepted geometry equals the reference parse; "
+            "FS-info parsing/fixing decided on symbolic words; mount glue on a log device.",
+    "note": "Structs are built directly (field-level symbolic), deserialisers have their own harnesses; a hang on a "
+            "device that never delivers bytes is outside (device contract).",
+}
+
+CLAIMS["C06"] = {
+    "text": "Bounded model checking of the formatting arithmetic over the whole 32-bit sector-count range: default "
+            "options for every n >= 42 (threshold exact by a refuted twin), and symbolic options case-split by sector "
+            "size x forced FAT type, each decided against an independent u64 validity predicate; FAT/root/FS-info "
+            "initialisation decided on small table and log devices.",
+    "note": "Out: mounting the formatted image through FileSystem::new + stats() as one run (composition); the mount side "
+            "is C07's harnesses on the same BPB struct. FAT32 region writes are checked by offset/length log only.",
+}
